@@ -482,8 +482,8 @@ func (c *xdsClient) handleLDS(resp *discoveryv3.DiscoveryResponse) error {
 			if lis, ok := res[ln]; ok {
 				filteredRes[n] = lis
 			}
-		} else {
-			filteredRes[n] = res[n]
+		} else if lis, ok := res[n]; ok {
+			filteredRes[n] = lis
 		}
 	}
 	c.mu.RUnlock()
